@@ -62,7 +62,7 @@ def run(pid, tier, seed):
                       "fontdrasil/src/variations.rs::VariationModel::new (natively, per enumerated layout)"],
         "instantiation": "P=V=Sym (1-D)" if pid != "C03" else "P=SymP2, V=SymV2 (2-D, as kurbo Point/Vec2 in gvar)",
         "bound": "master VALUES: unbounded reals (LRA) / unbounded integers (LIRA). master LAYOUTS: enumerated, not solved — catalog + "
-                 + ("1 axis k/4 m<=4, 2 axes k/4 m<=2, 2 axes k/2 m<=4" if tier == "quick" else
+                 + ("1 axis k/4 m<=4, 2 axes k/4 m<=2, 2 axes k/2 m<=4, 2 axes k/4 inside one quadrant m=3 (three quadrants) and m=4 (one)" if tier == "quick" else
                     "1 axis k/4 and k/8 m<=4, 2 axes k/4 m<=3, 2 axes k/2 m<=4, 3 axes k/2 m<=3")
                  + "; every subset of masters containing the default for layouts of <= %d masters" % (4 if tier == "quick" else 5),
         "oracle": "no rounding: reconstructed == master (|diff| <= 1e-9, coefficients exact dyadic rationals); rounding: |diff| <= 0.5; "
